@@ -97,3 +97,51 @@ pub(crate) fn budget_step(step: BudgetStep) {
         }
     });
 }
+
+/// One step of `MapAccess::next_key_seed` over a YAML mapping (`de.rs`, `MA`), logged AFTER the
+/// step was taken: which branch of the loop ran (`KP` an entry popped from the pending queue,
+/// `FL` the next merge batch was requested, `KL` the live stream was looked at), what it did,
+/// and the sizes of the queue of pending entries, of the merge stack and of the seen-key set.
+/// `ma` numbers the mappings of one call in the order their access objects were created.
+#[derive(Clone, Debug, PartialEq, Eq)]
+pub struct MaStep {
+    pub ma: u64,
+    pub act: &'static str,
+    pub out: &'static str,
+    pub pending: usize,
+    pub mstack: usize,
+    pub seen: usize,
+    pub flushing: bool,
+}
+
+thread_local! {
+    static MA_TRACE: std::cell::RefCell<Option<(u64, Vec<MaStep>)>> = const { std::cell::RefCell::new(None) };
+}
+
+/// Start logging map-access steps on this thread (off by default).
+pub fn ma_trace_begin() {
+    MA_TRACE.with(|t| *t.borrow_mut() = Some((0, Vec::new())));
+}
+
+/// Stop logging and return the steps logged since `ma_trace_begin`.
+pub fn ma_trace_end() -> Vec<MaStep> {
+    MA_TRACE.with(|t| t.borrow_mut().take()).map(|x| x.1).unwrap_or_default()
+}
+
+pub(crate) fn ma_new_id() -> u64 {
+    MA_TRACE.with(|t| match t.borrow_mut().as_mut() {
+        Some(x) => {
+            x.0 += 1;
+            x.0
+        }
+        None => 0,
+    })
+}
+
+pub(crate) fn ma_step(step: MaStep) {
+    MA_TRACE.with(|t| {
+        if let Some(x) = t.borrow_mut().as_mut() {
+            x.1.push(step);
+        }
+    });
+}
